@@ -27,7 +27,9 @@ import (
 	"crypto/tls"
 	"crypto/x509"
 	"encoding/json"
+	"errors"
 	"fmt"
+	"io"
 	"math/rand"
 	"net"
 	"net/http"
@@ -162,6 +164,26 @@ func newOf(now, pre map[string]bool) int {
 		}
 	}
 	return n
+}
+
+// errCloseConn closes its connection and then reports an error, as a
+// tls.Conn does whose peer is already gone ("failed to send closeNotify alert
+// (but connection was closed anyway)").
+type errCloseConn struct{ net.Conn }
+
+func (c *errCloseConn) Close() error {
+	c.Conn.Close()
+	return errors.New("harness: close reports an error (the connection was closed anyway)")
+}
+
+type errCloseListener struct{ net.Listener }
+
+func (l errCloseListener) Accept() (net.Conn, error) {
+	c, err := l.Listener.Accept()
+	if err != nil {
+		return nil, err
+	}
+	return &errCloseConn{c}, nil
 }
 
 type nullListener struct{ done chan struct{} }
@@ -380,10 +402,36 @@ func (st *state) overlapsAccepted(t0, t1 time.Time) bool {
 // doPost sends one configuration and checks the endpoint's verdict against
 // the class of the spec. It returns false if the scenario cannot go on
 // (model and implementation disagree about what is configured).
-func (st *state) doPost(r *vh.Run, c interface{}, h *trafficshape.Handler, cfg *shapex.Config) bool {
+// defaultsOf reads what the listener exposes about its default shaping.
+type defaultsSnap struct {
+	ReadBitrate, WriteBitrate int64
+	Latency                   time.Duration
+	Defaults                  trafficshape.Default
+}
+
+func defaultsOf(l *trafficshape.Listener) defaultsSnap {
+	d := defaultsSnap{ReadBitrate: l.ReadBitrate(), WriteBitrate: l.WriteBitrate(), Latency: l.Latency()}
+	if p := l.Defaults(); p != nil {
+		d.Defaults = *p
+	}
+	return d
+}
+
+func (st *state) doPost(r *vh.Run, c interface{}, l *trafficshape.Listener, h *trafficshape.Handler, cfg *shapex.Config) bool {
 	body := cfg.JSON()
+	before := defaultsOf(l)
 	t0 := time.Now()
 	code := postTo(h, body)
+	if code/100 != 2 {
+		// rejected: the listener's defaults (bucket capacities, latency,
+		// Defaults()) must be what they were
+		if after := defaultsOf(l); after != before {
+			r.ViolationCase(c, "C18:config:rejected-changed-defaults",
+				fmt.Sprintf("a configuration of class %s was answered %d but changed the listener's default shaping", cfg.Class, code),
+				map[string]interface{}{"before": before, "after": after, "config": body})
+		}
+		r.Count("rejected_defaults_compared", 1)
+	}
 	st.mu.Lock()
 	t1 := time.Now()
 	accepted := code/100 == 2
@@ -758,7 +806,7 @@ func judge(r *vh.Run, c interface{}, st *state) {
 
 // census waits (quiescence-decided) until the drain goroutines created since
 // pre are no more than what the configuration requests alone account for.
-func census(r *vh.Run, c interface{}, pre map[string]bool, allowed int, conns int, skip *bool, withMITM bool) {
+func census(r *vh.Run, c interface{}, pre map[string]bool, allowed int, conns int, skip *bool, withMITM, closeErr bool) {
 	if *skip {
 		r.Count("census_skipped_after_violation", 1)
 		return
@@ -773,18 +821,21 @@ func census(r *vh.Run, c interface{}, pre map[string]bool, allowed int, conns in
 	r.Eval(1)
 	switch out {
 	case vh.Happened:
-		r.Class(fmt.Sprintf("census|released|mitm=%v", withMITM))
+		r.Class(fmt.Sprintf("census|released|mitm=%v|closeerr=%v", withMITM, closeErr))
 		r.Count("census_ok", 1)
 	case vh.Stuck:
 		n := int(atomic.LoadInt64(&last))
-		r.Class(fmt.Sprintf("census|leaked|mitm=%v", withMITM))
+		r.Class(fmt.Sprintf("census|leaked|mitm=%v|closeerr=%v", withMITM, closeErr))
 		sig := "C18:release:bucket-goroutines"
 		if withMITM {
 			sig += ":mitm"
 		}
+		if closeErr {
+			sig += ":close-error"
+		}
 		r.ViolationCase(c, sig,
 			fmt.Sprintf("after closing all %d shaped connections %d trafficshape.(*Bucket).loop goroutines created during the scenario remain, %d more than the configuration requests alone create (%d); system quiescent", conns, n, n-allowed, allowed),
-			map[string]interface{}{"remaining": n, "allowed": allowed, "connections": conns, "mitm": withMITM, "fingerprint_head": head(condense(fp), 3000)})
+			map[string]interface{}{"remaining": n, "allowed": allowed, "connections": conns, "mitm": withMITM, "close_reports_error": closeErr, "fingerprint_head": head(condense(fp), 3000)})
 		*skip = true
 	default:
 		r.SetCase(c)
@@ -864,13 +915,17 @@ var plainUpstream = martian.RequestModifierFunc(func(req *http.Request) error {
 	return nil
 })
 
-func newRig(withMITM bool) (*rig, error) {
+func newRig(withMITM, closeErr bool) (*rig, error) {
 	l, err := net.Listen("tcp", "127.0.0.1:0")
 	if err != nil {
 		return nil, err
 	}
 	o := getOrigin()
-	tsl := trafficshape.NewListener(l)
+	var inner net.Listener = l
+	if closeErr {
+		inner = errCloseListener{l}
+	}
+	tsl := trafficshape.NewListener(inner)
 	p := martian.NewProxy()
 	p.SetDownstreamProxy(nil)
 	p.SetTimeout(120 * time.Second)
@@ -925,6 +980,7 @@ func (q reqSpec) url() string {
 type cconn struct {
 	id   int
 	mitm bool
+	raw  net.Conn
 	c    net.Conn
 	br   *bufio.Reader
 	gen  int
@@ -959,6 +1015,24 @@ func (cc *cconn) tunnel(pool *x509.CertPool) error {
 	}
 	cc.c = tc
 	cc.br = bufio.NewReaderSize(tc, 64<<10)
+	// The proxy wraps the decrypted connection (and stamps the wrapper with the
+	// configuration in force) only when *its* side of the handshake is
+	// complete, which is after the client's Handshake has returned. One
+	// warm-up exchange on a URL that matches no shape proves the wrapper
+	// exists before the scenario goes on; it is not an observation.
+	if _, err := tc.Write([]byte("GET /n/r1?id=1&n=1&w=1&pad=0 HTTP/1.1\r\nHost: origin.test\r\n\r\n")); err != nil {
+		return err
+	}
+	wres, err := http.ReadResponse(cc.br, &http.Request{Method: "GET"})
+	if err != nil {
+		return err
+	}
+	if _, err := io.Copy(io.Discard, wres.Body); err != nil {
+		return err
+	}
+	if wres.StatusCode != 200 {
+		return fmt.Errorf("warm-up exchange answered %d", wres.StatusCode)
+	}
 	return nil
 }
 
@@ -1145,8 +1219,13 @@ type scenario struct {
 	Profile string
 	Variant string
 	MITM    bool // every client tunnels through CONNECT and a real TLS handshake (proxy in MITM mode)
-	Res     []int64
-	Phases  []phase
+	// CloseErr: the connections the shaped listener wraps report an error from
+	// Close (after closing). Abrupt (MITM only): the clients reset the TCP
+	// connection without a TLS close_notify, so the proxy's tls.Conn.Close fails.
+	CloseErr bool
+	Abrupt   bool
+	Res      []int64
+	Phases   []phase
 }
 
 type scenCase struct {
@@ -1328,6 +1407,15 @@ func genScenario(r *vh.Run, sc scenCase) *scenario {
 		p1 := phase{Open: len(n1), Reqs: mkReqs(append(append([]int{}, keep...), n1...), 2)}
 		s.Phases = []phase{p0, p1}
 	}
+	switch {
+	case sc.Profile == "leak":
+		s.CloseErr = sc.Idx%2 == 1
+	case s.MITM:
+		s.CloseErr = rng.Intn(4) == 0
+		s.Abrupt = rng.Intn(3) == 0
+	default:
+		s.CloseErr = rng.Intn(4) == 0
+	}
 	return s
 }
 
@@ -1445,14 +1533,14 @@ func (s *scenario) bodies() []string {
 	return bs
 }
 
-func runScenario(r *vh.Run, c scenCase, s *scenario, skipCensus *bool) {
+func runScenario(r *vh.Run, c scenCase, s *scenario, skipCensus *bool) *state {
 	allowed := twinCount(s.bodies())
 	pre := loopIDs()
-	g, err := newRig(s.MITM)
+	g, err := newRig(s.MITM, s.CloseErr)
 	if err != nil {
 		r.SetCase(c)
 		r.Inconclusive("cannot listen: "+err.Error(), nil)
-		return
+		return nil
 	}
 	st := newState()
 	var conns []*cconn
@@ -1462,7 +1550,7 @@ func runScenario(r *vh.Run, c scenCase, s *scenario, skipCensus *bool) {
 	for pi := range s.Phases {
 		ph := &s.Phases[pi]
 		if ph.Pre != nil {
-			if !st.doPost(r, c, g.h, ph.Pre) {
+			if !st.doPost(r, c, g.tsl, g.h, ph.Pre) {
 				break
 			}
 		}
@@ -1476,7 +1564,7 @@ func runScenario(r *vh.Run, c scenCase, s *scenario, skipCensus *bool) {
 				watchdog = true
 				break
 			}
-			conns = append(conns, &cconn{id: len(conns), mitm: s.MITM, c: cn, br: bufio.NewReaderSize(cn, 64<<10), gen: gen})
+			conns = append(conns, &cconn{id: len(conns), mitm: s.MITM, raw: cn, c: cn, br: bufio.NewReaderSize(cn, 64<<10), gen: gen})
 			totalConns++
 		}
 		if watchdog {
@@ -1570,7 +1658,7 @@ func runScenario(r *vh.Run, c scenCase, s *scenario, skipCensus *bool) {
 			// in its own goroutine: the handler takes the write lock of the
 			// shape map and would hang with the connections if they are stuck
 			postDone = make(chan bool, 1)
-			go func() { postDone <- st.doPost(r, c, g.h, ph.Mid) }()
+			go func() { postDone <- st.doPost(r, c, g.tsl, g.h, ph.Mid) }()
 		}
 		wg.Wait()
 		if st.isStalled() {
@@ -1590,6 +1678,13 @@ func runScenario(r *vh.Run, c scenCase, s *scenario, skipCensus *bool) {
 		}
 	}
 	for _, cc := range conns {
+		if s.Abrupt {
+			if tc, ok := cc.raw.(*net.TCPConn); ok {
+				tc.SetLinger(0) // RST, no close_notify
+				tc.Close()
+				continue
+			}
+		}
 		cc.c.Close()
 	}
 	switch {
@@ -1604,18 +1699,19 @@ func runScenario(r *vh.Run, c scenCase, s *scenario, skipCensus *bool) {
 		r.SetCase(c)
 		r.Inconclusive("harness I/O watchdog: no byte for minutes although the system is not quiescent", vh.MartianGoroutines())
 		go g.close()
-		return
+		return nil
 	default:
-		census(r, c, pre, allowed, totalConns, skipCensus, s.MITM)
+		census(r, c, pre, allowed, totalConns, skipCensus, s.MITM, s.CloseErr || s.Abrupt)
 		g.close()
 	}
 	if st.aborted != "" && strings.HasPrefix(s.Variant, "mid-") {
 		// the configuration in force while the in-flight responses ran is not
 		// the one the model assumed
 		r.Count("scenarios_not_judged_after_abort", 1)
-		return
+		return nil
 	}
 	judge(r, c, st)
+	return st
 }
 
 // ---------------------------------------------------------------------------
@@ -1631,10 +1727,12 @@ type dresp struct {
 }
 
 type dscenario struct {
-	Cfg   *shapex.Config
-	Mid   *shapex.Config
-	Res   []int64
-	Conns [][]dresp
+	CloseErr    bool // the wrapped connections report an error from Close
+	DoubleClose bool // every shaped connection is closed twice
+	Cfg         *shapex.Config
+	Mid         *shapex.Config
+	Res         []int64
+	Conns       [][]dresp
 }
 
 func genDirect(r *vh.Run, sc scenCase) *dscenario {
@@ -1706,6 +1804,8 @@ func genDirect(r *vh.Run, sc scenCase) *dscenario {
 		}
 		d.Conns = append(d.Conns, rs)
 	}
+	d.CloseErr = rng.Intn(3) == 0
+	d.DoubleClose = rng.Intn(3) == 0
 	return d
 }
 
@@ -1729,10 +1829,14 @@ func runDirect(r *vh.Run, c scenCase, d *dscenario, skipCensus *bool) {
 	allowed := twinCount(bodies)
 	pre := loopIDs()
 	pl := vh.NewPipeListener("10.1.1.1:3128", 64<<10)
-	tsl := trafficshape.NewListener(pl)
+	var inner net.Listener = pl
+	if d.CloseErr {
+		inner = errCloseListener{pl}
+	}
+	tsl := trafficshape.NewListener(inner)
 	h := trafficshape.NewHandler(tsl)
 	st := newState()
-	if !st.doPost(r, c, h, d.Cfg) {
+	if !st.doPost(r, c, tsl, h, d.Cfg) {
 		tsl.Close()
 		return
 	}
@@ -1839,7 +1943,7 @@ func runDirect(r *vh.Run, c scenCase, d *dscenario, skipCensus *bool) {
 		case <-time.After(2 * time.Second):
 		}
 		postDone = make(chan bool, 1)
-		go func() { postDone <- st.doPost(r, c, h, d.Mid) }()
+		go func() { postDone <- st.doPost(r, c, tsl, h, d.Mid) }()
 	}
 	allDone := make(chan struct{})
 	go func() { wg.Wait(); rwg.Wait(); close(allDone) }()
@@ -1880,8 +1984,11 @@ func runDirect(r *vh.Run, c scenCase, d *dscenario, skipCensus *bool) {
 	}
 	for _, dc := range dcs {
 		dc.cl.Close()
+		if d.DoubleClose {
+			dc.tc.Close()
+		}
 	}
-	census(r, c, pre, allowed, len(dcs), skipCensus, false)
+	census(r, c, pre, allowed, len(dcs), skipCensus, false, d.CloseErr)
 	tsl.Close()
 	if st.aborted != "" {
 		r.Count("scenarios_not_judged_after_abort", 1)
@@ -1987,6 +2094,62 @@ func runCfgCase(r *vh.Run, c scenCase, skipCensus *bool) {
 	runScenario(r, c, s, skipCensus)
 }
 
+// runCfgTimingCase: behavioural side of "a rejected configuration leaves the
+// defaults unchanged", in the only direction a lower bound can speak about:
+// the active default bandwidth is slow (a few windows for the probe), the
+// rejected configuration's default is fast. Probe A (before) shows that the
+// active default really delays the probe by the bound; probe B (same request,
+// new connection, after the rejected request) must then be delayed by at
+// least the same bound. Nothing is asserted if A itself was not delayed.
+func runCfgTimingCase(r *vh.Run, c scenCase, skipCensus *bool) {
+	rng := r.Rng(c.Stream+"/timing", c.Idx)
+	res := []int64{4000, 4000, 4000}
+	const bw, body = 300, 1000
+	cfg1 := &shapex.Config{Class: "valid", Default: &shapex.Default{Up: bw, Down: 64 << 22}}
+	classes := []string{"invalid:overlap", "invalid:overlap-open", "invalid:malformed-throttle", "invalid:negative-throttle-bw",
+		"invalid:negative-halt-duration", "invalid:negative-close-byte", "invalid:negative-max-bw", "invalid:bad-regex"}
+	cfg2 := shapex.GenValid(rng, shapex.GenOpts{Gen: 2, Slots: []int{rng.Intn(3)}, Res: res, Closes: true, CloseAll: true})
+	bad := shapex.Spoil(rng, cfg2, classes[rng.Intn(len(classes))])
+	bad.Default = &shapex.Default{Up: 64 << 22, Down: 64 << 22}
+	probe := reqSpec{Slot: -1, ID: 41, N: body, S: -1, E: -1, W: 5}
+	s := &scenario{Profile: "cfg", Variant: "rejected-timing", Res: res, Phases: []phase{
+		{Pre: cfg1, Open: 1, Reqs: map[int][]reqSpec{0: {probe}}},
+		{Pre: bad, Open: 1, Reqs: map[int][]reqSpec{1: {probe}}},
+	}}
+	st := runScenario(r, c, s, skipCensus)
+	if st == nil {
+		return
+	}
+	bound := time.Duration((body+bw-1)/bw-2)*time.Second - throttleSlack
+	var a, b *obs
+	for _, o := range st.obs {
+		if o.Delivered != o.L || o.NoResp {
+			continue
+		}
+		if o.Conn == 0 {
+			a = o
+		} else if o.Conn == 1 && o.AfterRej {
+			b = o
+		}
+	}
+	if a == nil || b == nil {
+		return
+	}
+	r.Eval(1)
+	ea, eb := a.TDone.Sub(a.TSend), b.TDone.Sub(b.TSend)
+	if ea < bound {
+		r.Class("config|rejected-timing|not-applicable")
+		return
+	}
+	r.Class("config|rejected-timing|compared")
+	r.Count("default_bandwidth_relative_checks", 1)
+	if eb < bound {
+		r.ViolationCase(c, "C18:config:rejected-changed-defaults",
+			fmt.Sprintf("with an active default bandwidth of %d B/s a %d-byte non-matching response took %v; after a rejected configuration (whose default is unlimited) the same response on a new connection took %v, less than the %v the active default imposes", bw, body, ea, eb, bound),
+			map[string]interface{}{"active": cfg1.JSON(), "rejected": bad.JSON()})
+	}
+}
+
 // ---------------------------------------------------------------------------
 // batches
 
@@ -2034,6 +2197,9 @@ func runCase(r *vh.Run, c scenCase, skip *bool) {
 	case "direct":
 		runDirect(r, c, genDirect(r, c), skip)
 	case "cfg":
+		if c.Idx%22 == 0 {
+			runCfgTimingCase(r, c, skip)
+		}
 		runCfgCase(r, c, skip)
 	default:
 		var s *scenario
